@@ -6,7 +6,7 @@ HOOKS = {"guard": "verif",
          "source_commits": [], "add_only": True}
 ENGINES = [
     {"name": "tlc", "path": "/verif/spec", "kind_free_text": "TLA+ specification (WitnessCore, Witness, ...) checked, used as generator (every transition emitted as JSON) and as judge of recorded traces (Trace_*.tla) by TLC 1.8.0",
-     "serves_properties": ["C01", "C02", "C03", "C04", "C08", "C09", "C12", "C16", "C20"]},
+     "serves_properties": ["C01", "C02", "C03", "C04", "C05", "C06", "C07", "C08", "C09", "C12", "C16", "C20"]},
     {"name": "driver", "path": "/verif/harness", "kind_free_text": "Go harness (own module with replace => /repo): concretiser, independent RFC 6962 / signed-note reference, drivers that execute TLC-generated behaviours against the real code and record ndjson observations",
      "serves_properties": ["C01", "C02", "C03", "C04", "C08", "C09", "C12", "C16", "C20"]},
 ]
@@ -21,7 +21,21 @@ def seq(text, ref, technique="TLC model checking of Witness.tla + replay of ever
     return {"engine": "tlc", "level": "model_checking", "text": text, "design_ref": ref, "note": SEQ_NOTE, "technique": technique}
 
 
+OPS_NOTE = ("Trusted: TLC; the gate / fault / crash wrappers (transparent delegation to the real in-memory store and to mattn/go-sqlite3); SQLite's own atomic commit (tested by process kills, not proved); "
+            "database/sql's connection pool semantics; the harness projection. Below storage-call granularity Go's memory model is covered only by the -race runs.")
+
+
+def ops(level, text, ref, technique):
+    return {"engine": "tlc", "level": level, "text": text, "design_ref": ref, "note": OPS_NOTE, "technique": technique}
+
+
 CHECKS = {
+    "C05": ops("model_checking", "TLC checks WitnessOps (refinement of the atomic witness: CommitIsAtomicAccept, NoRegress, Linearizable, ErrOnlyOnConflict) for the scenario menu on both stores, LISTS every interleaving at storage-call granularity for 2 and 3 processes (samples for 4), a gate scheduler forces each schedule on the real witness over the real stores, and TLC (Trace_Lin, silent linearization steps) judges every recorded invocation/response history; plus free-running goroutines under the race detector.", "DESIGN.md section 5 C05",
+               "TLC model checking of WitnessOps.tla + forced replay of every TLC-listed schedule + TLC linearizability trace validation"),
+    "C06": ops("fault_enumeration", "Every real driver-operation boundary (before/after begin, query, exec, commit, rollback) of the update histories is a SIGKILL point of a child process on file-backed SQLite, plus random-instant kills; a fresh process reopens and probes; TLC (Trace_Crash) judges old-or-new, acknowledged-in-force, completeness; WitnessOps with the Crash action is model-checked for the same histories.", "DESIGN.md section 5 C06",
+               "TLC model checking of WitnessOps.tla with Crash + SIGKILL at every driver-operation boundary + TLC trace validation"),
+    "C07": ops("fault_enumeration", "TLC lists every placement of up to 1 (thorough: 2) storage failures over the calls of the update histories (WitnessOps fault actions); each is injected at interface level and at SQL-driver level on a single-connection SQLite store and followed by fault-free probes; TLC evaluates the C07 monitors (no false success, failed read is not first use, failure has no effect, no leaked transaction, carries on).", "DESIGN.md section 5 C07",
+               "TLC model checking of WitnessOps.tla with fault actions + replay of every TLC-listed fault placement + TLC trace validation"),
     "C01": seq("Exhaustive TLC check of the bounded adversarial model (AppendOnly, ChainInv); every transition of that model and random walks over it are executed on the real witness (both stores, several size embeddings up to 2^63) and TLC evaluates AppendOnly/ChainOK on the observed stored values and cosigned outputs.", "DESIGN.md section 5 C01"),
     "C02": seq("All authenticity classes x all states x all log ids (incl. logs sharing a key under different origins, unknown id) enumerated by TLC and executed; TLC evaluates Authentic on the observed verdict, returned bytes and stored state.", "DESIGN.md section 5 C02"),
     "C03": seq("Every refusal transition of the bounded models executed from its pre-state; TLC evaluates RefusalNoEffect on byte-level before/after snapshots of every log and the log list.", "DESIGN.md section 5 C03"),
